@@ -130,6 +130,10 @@ def serial_bound(sc, latency=3):
 
 
 def step_budget(sc):
+    if sc.get('infeasible_min'):
+        # no workflow can ever start: a few steps after the last ingest has ended are enough to judge the prefix
+        u = unit_factor(sc.get('unit', 'seconds'))
+        return max(math.ceil((o['start'] + o['duration']) / u) for o in sc['obs']) + 15
     return 3 * serial_bound(sc) + 50
 
 
